@@ -818,6 +818,28 @@ pub fn run(ctx: &mut Ctx) {
                 if quoted && plain_tag && (tg == Target::String || tg == Target::Any || tg == Target::Str) && got != SRes::Str(sc.value.clone()) {
                     ctx.fail("quoted-not-string", format!("{text:?} as {tg:?} with {ov:?} gave {got:?}, expected the string {:?}", sc.value), replay.clone());
                 }
+                // S: documented tag table for String targets: !!binary is base64 of UTF-8 text (unless
+                // ignore_binary_tag_for_string), the other core tags are not strings, !!str / ! / custom are
+                if tg == Target::String && !(ov.no_schema && sc.style == 0) {
+                    use base64::Engine;
+                    let nullish_plain = sc.style == 0 && (sc.value.is_empty() || sc.value == "~" || sc.value.eq_ignore_ascii_case("null"));
+                    let want: Option<Option<String>> = match sc.tag.as_deref() {
+                        Some("!!binary") | Some("tag:yaml.org,2002:binary") if !ov.ignore_bin && !nullish_plain => {
+                            let cleaned: String = sc.value.chars().filter(|c| !(c.is_ascii() && (*c as u8).is_ascii_whitespace())).collect();
+                            Some(base64::engine::general_purpose::STANDARD.decode(cleaned.as_bytes()).ok().and_then(|b| String::from_utf8(b).ok()))
+                        }
+                        Some("!!int") | Some("!!float") | Some("!!bool") | Some("!!seq") | Some("!!map") | Some("!!timestamp") | Some("!degrees")
+                            if !nullish_plain => Some(None),
+                        Some("!!null") => Some(None),
+                        _ => None,
+                    };
+                    if let Some(w) = want {
+                        let ok = match (&w, &got) { (Some(s), SRes::Str(g)) => s == g, (None, SRes::Err(_)) => true, _ => false };
+                        if !ok {
+                            ctx.fail("string-tag-table", format!("{text:?} as String with {ov:?} gave {got:?}, documented {w:?}"), replay.clone());
+                        }
+                    }
+                }
                 // S: integers end to end never wrap
                 if let Target::Int(signed, bits) = tg {
                     let want = if signed { ref_signed(&sc.value, bits, ov.legacy).map(SRes::Int) } else { ref_unsigned(&sc.value, bits, ov.legacy).map(SRes::UInt) };
